@@ -87,6 +87,29 @@ def _tlv_callers_guarantee(report, prog, helper, RULE):
     return bound, n
 
 
+def rwe_exact(prog):
+    """Type3Tag.read_without_encryption returns data[1:] only behind a refusing test that, folded by the checker for every
+    request size 0..15 blocks and response size 0..300, lets exactly len(data) == 1 + 16 * len(block_list) pass."""
+    from ..q import try_const
+    rwe = prog.func('nfc.tag.tt3.Type3Tag.read_without_encryption')
+    if not find(rwe.node, 'return data[1:]'):
+        return False
+    guards = [i for i in walk_no_nested(rwe.node) if isinstance(i, ast.If) and 'len(data)' in norm(i.test) and i.body and isinstance(i.body[-1], ast.Raise)]
+    if not guards:
+        return False
+    for k in range(0, 16):
+        for n in range(0, 301):
+            refused = False
+            for g in guards:
+                v = try_const(g.test, {'len(data)': n, 'len(block_list)': k}, default=None)
+                if v is None:
+                    continue
+                refused = refused or bool(v)
+            if refused != (n != 1 + 16 * k):
+                return False
+    return True
+
+
 def run(report, prog, res, collect, RULE='C08-R4', extra_buffers=()):
     from ..cfg import cfg_of
     n = 0
@@ -97,8 +120,7 @@ def run(report, prog, res, collect, RULE='C08-R4', extra_buffers=()):
         n += k
     # callee guarantees: read_without_encryption returns exactly 16 byte per requested block
     rwe = prog.func('nfc.tag.tt3.Type3Tag.read_without_encryption')
-    okk = any(isinstance(i, ast.If) and norm(i.test) == 'len(data) != 1 + len(block_list) * 16' and isinstance(i.body[-1], ast.Raise) for i in walk_no_nested(rwe.node)) \
-        and bool(find(rwe.node, 'return data[1:]'))
+    okk = rwe_exact(prog)
     report.check(okk, RULE, key(rwe.qname, 'returns exactly 16 byte per requested block'), rwe.loc(), 'read_without_encryption length test changed')
     rfn = prog.func('nfc.tag.tt3.Type3Tag.read_from_ndef_service')
     okk2 = bool(find(rfn.node, 'bc_list = [BlockCode(n) for n in blocks]')) and bool(find(rfn.node, 'return self.read_without_encryption(sc_list, bc_list)'))
